@@ -20,3 +20,4 @@ import SpoxModel.Props.C03
 #print axioms C03.type_errors_stmts
 #print axioms C03.names_restored_stmts
 #print axioms C03.pinned_statements_counterexample
+#print axioms C03.arguments_of_main_graph
